@@ -574,14 +574,18 @@ def row_prep(p, f):
     flow = Flow(f)
     sym = Sym(f, flow)
     labels = loop_var_labels(f, flow, sym)
+    g = CFG(f)
+    loops = g.loops()
     for bi, t in f.calls():
         n = (f.callee_def(t) or {}).get("n")
+        depth = "loop-depth %d" % sum(1 for L in loops if bi in L["body"])
         if n == "vec_znx_add_scalar_assign":
-            out.append((n, repr(norm_poly(sym.operand(t["a"][3]), labels)), repr(norm_poly(sym.operand(t["a"][2]), labels))))
+            out.append((n, repr(norm_poly(sym.operand(t["a"][3]), labels)), repr(norm_poly(sym.operand(t["a"][2]), labels)), depth))
         elif n == "vec_znx_normalize_assign":
-            out.append((n, "", ""))
-        elif n == "zero":
-            out.append((n, "", ""))
+            out.append((n, "", "", depth))
+        elif n in ("zero", "zero_at", "fill"):
+            # clearing the row plaintext: which clearing primitive, and in which loop (per cell or once)
+            out.append((n, "", "", depth))
     return sorted(out)
 
 
@@ -611,7 +615,7 @@ def run(res, tier):
     res.rule("CMP-2", "mask stream = Source::new(s) with s stored in seed_mut(), or branch().1 with branch().0 stored in the seed table copied to seed_mut(); the seed store reaches the caller's object (no cloning to_mut in between)")
     res.rule("CMP-3", "seed store index polynomial == accessor seed index polynomial under the (row, col) substitution of the kernel's result operand")
     res.rule("CMP-4", "expander: one Source::new(other.seed); columns filled by for_each over the plain Range 1..rank+1 with column = loop variable and radix = other.base2k; kernel mask loop has the same shape")
-    res.rule("CMP-5", "vec_znx_add_scalar_assign limb/column polynomials and normalisation calls of the row plaintext agree between standard and compressed matrix encryptors")
+    res.rule("CMP-5", "vec_znx_add_scalar_assign limb/column polynomials, normalisation calls and clearing of the row plaintext (primitive and loop depth) agree between standard and compressed matrix encryptors")
     res.assumptions = ["kernel arithmetic (C01) and cross-backend bits (C10) are not decided here", "accessor atoms are compared by name (one compressed object in scope)"]
     cfgs = ["avx-dev"] if tier == "quick" else ["avx-dev", "ref-dev"]
     for cfg in cfgs:
